@@ -237,6 +237,14 @@ func runSolver(ctx context.Context, name string, args []string, file string) sol
 // solveOne races the solvers on one obligation.
 func (p *Program) solveOne(ob *Obligation, cfg SolverCfg, idx int) {
 	// conjunctive goals are discharged conjunct by conjunct (smaller queries, better diagnostics)
+	if !ob.Vacuity && ob.Goal.Op == "=>" && len(ob.Goal.Args) == 2 && ob.Goal.Args[1].Op == "and" {
+		// A => (B1 && B2 ...) is split into A => Bi
+		var parts []*T
+		for _, b := range ob.Goal.Args[1].Args {
+			parts = append(parts, Implies(ob.Goal.Args[0], b))
+		}
+		ob.Goal = App("and", SBool, parts...)
+	}
 	if !ob.Vacuity && ob.Goal.Op == "and" && len(ob.Goal.Args) > 1 {
 		t0 := time.Now()
 		var notes []string
